@@ -461,7 +461,7 @@ type c20EntropyCase struct {
 	Entry  string         `json:"entry"` // Sign1, SignMessage2 (fault hits the second signer), Countersign0
 	Limit  int            `json:"limit"`
 	Short  bool           `json:"short"`
-	Signer string         `json:"signer"` // builtin, stub-error, stub-partial, stub-empty
+	Signer string         `json:"signer"`        // builtin, stub-error, stub-partial, stub-empty
 	EOF    bool           `json:"eof,omitempty"` // the entropy source ends with io.EOF
 }
 
